@@ -141,6 +141,12 @@ class MembershipProtocol(Entity):
     def start(self) -> list[Event]:
         """Schedule the first probe tick."""
         random.shuffle(self._probe_order)
+        # Monitoring starts now: without a reference instant a member that never
+        # sends a heartbeat keeps phi == 0 and is never suspected.
+        now_s = self.now.to_seconds()
+        for info in self._members.values():
+            if info.detector.last_heartbeat is None:
+                info.detector.heartbeat(now_s)
         return [
             Event(
                 time=self.now + self._probe_interval,
